@@ -233,11 +233,14 @@ Section Top.
   Definition pkgs_imports_ok (x : str) : Prop :=
     forall d pk im, pkg_of fs d = Some pk -> pk_imports pk = Some im ->
       im <> JNull /\ in_scope_imports im x = true.
-  (* a bare target of an imports map is itself a specifier in scope *)
+  (* a bare target of an imports map is itself a specifier in scope, and not a
+     builtin name: for require Node fails on "#x" -> "fs" (fileURLToPath of the
+     node: URL throws) while esbuild answers the builtin; that is no resolution
+     and no rejection by the map, so the property is silent there *)
   Definition remap_ok (user : list str) (x : str) : Prop :=
     forall d pk im s, pkg_of fs d = Some pk -> pk_imports pk = Some im ->
-      node_imports_resolve x im (cjs_conds user) = OPackageResolve s -> builtin s = false ->
-      bare_ok s = true /\ pkgs_ok fs s.
+      node_imports_resolve x im (cjs_conds user) = OPackageResolve s ->
+      builtin s = false /\ bare_ok s = true /\ pkgs_ok fs s.
 
   Lemma imports_of_ok x d pk : pkgs_imports_ok x -> pkg_of fs d = Some pk -> imports_of pk = pk_imports pk.
   Proof.
@@ -251,7 +254,7 @@ Section Top.
     str_eqb (base_name pdir) node_modules_s = false -> pkg_of fs pdir = Some pk -> pk_imports pk = Some im ->
     agree (load_package_imports builtin fs KRequire user x pdir im)
           (RESOLVE_ESM_MATCH fs pdir (node_imports_resolve x im (cjs_conds user))
-             (fun s => if builtin s then NBuiltin s else cjs_package fs (cjs_conds user) s pdir)).
+             (fun s => if builtin s then NNotFound else cjs_package fs (cjs_conds user) s pdir)).
   Proof.
     intros Hi Hr Hb Hpd Him. destruct (Hi _ _ _ Hpd Him) as [Hnn Hsc].
     unfold load_package_imports.
@@ -275,7 +278,7 @@ Section Top.
         destruct Hst as [-> | ->]; destruct (path_unescape u); cbn [snd];
           repeat match goal with |- snd (if ?c then _ else _) <> _ => destruct c end; cbn [snd]; discriminate. }
       pose proof (resolved_agree fs pdir u st
-                    (fun s => if builtin s then NBuiltin s else cjs_package fs (cjs_conds user) s pdir) Hts Hst) as Hra.
+                    (fun s => if builtin s then NNotFound else cjs_package fs (cjs_conds user) s pdir) Hts Hst) as Hra.
       destruct (handle_post_conditions (u, st)) as [r2 s2]. cbn [snd fst] in *.
       destruct s2; try exact Hra. contradiction.
     - (* remapped to another package specifier *)
@@ -284,8 +287,7 @@ Section Top.
         destruct st; try discriminate; injection Heq as ->; auto. }
       destruct Hst as [-> ->]. cbn [RESOLVE_ESM_MATCH].
       change (handle_post_conditions (s, SPackageResolve)) with (s, SPackageResolve). cbn [fst snd].
-      destruct (builtin s) eqn:Ebs; [reflexivity|].
-      destruct (Hrm s eq_refl Ebs) as [Hbs Hps].
+      destruct (Hrm s eq_refl) as (Ebs & Hbs & Hps). rewrite Ebs.
       apply noimports_agree; auto.
     - unfold outcome_of_model in Heq. cbn [fst snd] in Heq. cbn [RESOLVE_ESM_MATCH].
       destruct st; try discriminate; reflexivity.
